@@ -303,6 +303,11 @@ def _free_body(rng, C, idx, allow_static=False):
     q0 = np.r_[rng.normal(size=3) * _lu(rng, 0.1, 3), _quat(rng)]
     u0 = np.r_[rng.normal(size=3) * _lu(rng, 0.1, 3), rng.normal(size=3) * _lu(rng, 0.1, 5)]
     name = f"{kind}{idx}"
+    r_ = rng.random()
+    if r_ < 0.2:
+        name = f"{kind}{idx}_m{round(float(rng.uniform(0.5, 9.5)), 1)}"      # parameter value in the name: contains a dot
+    elif r_ < 0.3:
+        name = f"{kind}-{idx} v2"                                             # dash and blank
     off = dict(B_r_CP=rng.normal(size=3) * 0.2, A_BM=_rot(rng)) if rng.random() < 0.5 else {}
     if kind == "rb":
         b = RigidBody(_lu(rng, 0.1, 10), _theta(rng), q0=q0, u0=u0, name=name)
